@@ -1,4 +1,5 @@
 import HopModel.Driver.Util
+import HopModel.Model.Dgram
 /-
 Driver for C10.  The model's answer to every junk datagram is "the endpoint is still there and
 nothing it had established changed" (`C10_*`, `C03_forged_noop`, `C19_*`); it keeps count of the
@@ -37,5 +38,17 @@ def step (w : W) : List String → W × String
   | _ => (w, "bad-op")
 
 def main (_ : List String) : IO Unit := loopLines step {}
+
+/-- suite C10vec: `vec <hex>` - the slice-level transcription of `DecryptCertificates` on the decrypted bytes -/
+def stepVec (_ : Unit) : List String → Unit × String
+  | ["vec", h] => match fromHex h with
+    | some b => match Dgram.decryptCertificates b with
+      | .ok (l, i) => ((), s!"ok {l} {i}")
+      | .err => ((), "err")
+      | .panic => ((), "panic")
+    | none => ((), "bad-op")
+  | _ => ((), "bad-op")
+
+def mainVec (_ : List String) : IO Unit := loopLines stepVec ()
 
 end Driver.C10
